@@ -259,6 +259,8 @@ func (t *Target) HealthCheckCompleted(success bool) {
 			case TargetStateAdding:
 				t.state = TargetStateHealthy
 				becameHealthy = true
+			case TargetStateDraining:
+				// Stay out of rotation until the drain has finished.
 			default:
 				t.state = TargetStateHealthy
 			}
